@@ -248,7 +248,7 @@ func (e *Explorer) Explore(inst *Instance) {
 			e.incomplete("time budget exhausted")
 			break
 		}
-		if len(e.Viol) >= e.MaxViol {
+		if e.behaviouralViolations() >= e.MaxViol {
 			e.incomplete("stopped after violations")
 			break
 		}
@@ -475,7 +475,28 @@ func (e *Explorer) checkObligations(rep *PathReport, lits []*sym.Term, bound int
 	}
 }
 
+// behaviouralViolations counts violations other than frame-monitor findings (a frame finding
+// alone does not end the search for a behavioural counterexample).
+func (e *Explorer) behaviouralViolations() int {
+	n := 0
+	for _, v := range e.Viol {
+		if !strings.HasPrefix(v.Label, "frame:") {
+			n++
+		}
+	}
+	return n
+}
+
 func (e *Explorer) addViolation(rep *PathReport, ob Obligation, model sym.Model, concrete bool) {
+	same := 0
+	for _, v := range e.Viol {
+		if v.Label == ob.Label {
+			same++
+		}
+	}
+	if same >= e.MaxViol {
+		return // enough witnesses of this obligation
+	}
 	// re-execute under the violating model to obtain the complete inputs and the
 	// executor's prediction of what the real code reports
 	saved := e.M.PC
